@@ -825,6 +825,80 @@ struct P_C08t
 // ---------------------------------------------------------------------------------------------------
 // emit mode for the compiled tier (E9): generate grammars + inputs + expected results with the same generators and reference.
 // Output: one JSON document {"cases":[{grammar, strategy, class, inputs:[{hex, ws, nl, accept, value, messages}]}]}
+// ---- spelled terminals for the compiled tier: the six terminals get real term kinds (char / string / regex with or without a custom
+// name / typed), names that are prefixes of each other, and a declaration order different from the index order.
+struct Spelling { char kind; std::string text; std::string name; };     // kind: c char, s string, r regex "<letter>[0-9]+", R regex without custom name, t typed char term
+struct SpellTable { std::vector<Spelling> sp; std::vector<int> decl_order; };
+static SpellTable make_spelling(Choice& ch)
+{
+    // per terminal a menu; several entries are proper prefixes of entries of other terminals ("<" / "<=", "b" / "be", "i" / "if")
+    static const std::vector<std::vector<Spelling>> menu = {
+        {{'c', "a", "a"}, {'s', "al", "al"}, {'r', "a[0-9]+", "anum"}, {'t', "a", "a"}},
+        {{'c', "b", "b"}, {'s', "be", "be"}, {'s', "b", "b"}, {'R', "b[0-9]+", "r_b[0-9]+"}},
+        {{'c', "c", "c"}, {'s', "<=", "<="}, {'s', "if", "if"}, {'t', "c", "c"}},
+        {{'c', "d", "d"}, {'s', "<", "<"}, {'s', "i", "i"}, {'r', "d[0-9]+", "dnum"}},
+        {{'c', "e", "e"}, {'s', "end", "end"}, {'c', ";", ";"}, {'s', "en", "en"}},
+        {{'c', "f", "f"}, {'s', "==", "=="}, {'c', "=", "="}, {'t', "f", "f"}}};
+    SpellTable t;
+    for (size_t i = 0; i < 6; ++i) t.sp.push_back(menu[i][ch.below(4)]);
+    // two terminals must not share a spelling or a first letter with a regex spelling (keeps the reference tokeniser trivial)
+    for (size_t i = 0; i < 6; ++i) for (size_t j = 0; j < i; ++j)
+    {
+        bool clash = t.sp[i].text == t.sp[j].text;
+        if ((t.sp[i].kind == 'r' || t.sp[i].kind == 'R') && t.sp[j].text[0] == t.sp[i].text[0]) clash = true;
+        if ((t.sp[j].kind == 'r' || t.sp[j].kind == 'R') && t.sp[j].text[0] == t.sp[i].text[0]) clash = true;
+        if (clash) t.sp[i] = menu[i][0];
+    }
+    for (int i = 0; i < 6; ++i) t.decl_order.push_back(i);
+    for (int i = 5; i > 0; --i) std::swap(t.decl_order[size_t(i)], t.decl_order[ch.below(uint32_t(i + 1))]);
+    return t;
+}
+static bool spell_match(const Spelling& s, const std::string& text, size_t p, size_t& len)
+{
+    if (s.kind == 'r' || s.kind == 'R')
+    {
+        if (p >= text.size() || text[p] != s.text[0]) return false;
+        size_t q = p + 1; while (q < text.size() && text[q] >= '0' && text[q] <= '9') ++q;
+        if (q == p + 1) return false;
+        len = q - p; return true;
+    }
+    if (text.compare(p, s.text.size(), s.text) != 0) return false;
+    len = s.text.size(); return true;
+}
+// reference tokeniser for spelled text: whitespace skipping, longest match, ties to the term declared first
+static gg::Lexed lex_spelled(const SpellTable& t, const std::string& text, bool skip_ws, bool skip_nl)
+{
+    gg::Lexed L; int line = 1, col = 1; size_t p = 0;
+    std::vector<int> rank(6); for (int k = 0; k < 6; ++k) rank[size_t(t.decl_order[size_t(k)])] = k;
+    while (p < text.size())
+    {
+        unsigned char c = (unsigned char)text[p];
+        bool is_ws = skip_ws && (c == 9 || c == 11 || c == 12 || c == 13 || c == 32 || (c == 10 && skip_nl));
+        if (is_ws) { if (c == '\n') { ++line; col = 1; } else ++col; ++p; continue; }
+        int best = -1; size_t bl = 0;
+        for (int i = 0; i < 6; ++i) { size_t len = 0; if (spell_match(t.sp[size_t(i)], text, p, len)) { if (len > bl || (len == bl && best >= 0 && rank[size_t(i)] < rank[size_t(best)])) { best = i; bl = len; } } }
+        if (best < 0) { L.lex_error = true; L.err_line = line; L.err_col = col; L.err_byte = c; L.err_offset = p; break; }
+        ref::Token tk; tk.term = best; tk.lexeme = text.substr(p, bl); tk.line = line; tk.col = col; L.toks.push_back(tk);
+        for (size_t k = 0; k < bl; ++k) { if (text[p + k] == '\n') { ++line; col = 1; } else ++col; }
+        p += bl;
+    }
+    L.eof_line = line; L.eof_col = col;
+    return L;
+}
+static std::string render_spelled(const SpellTable& t, const std::vector<ref::Token>& toks, eng::Rng& rng)
+{
+    static const char* seps[] = {" ", "  ", "\n", " \n ", "\t", "\r\n"};
+    std::string s; if (rng.chance(1, 4)) s += seps[rng.below(6)];
+    for (auto& tk : toks)
+    {
+        const Spelling& sp = t.sp[size_t(tk.term)];
+        if (sp.kind == 'r' || sp.kind == 'R') { s += sp.text[0]; int nd = 1 + int(rng.below(3)); for (int k = 0; k < nd; ++k) s += char('0' + rng.below(10)); }
+        else s += sp.text;
+        s += seps[rng.below(6)];
+    }
+    return s;
+}
+
 static int emit_cases(const eng::Args& a)
 {
     std::string params = "seed=" + std::to_string(a.seed) + " max_success=" + std::to_string(a.cases * 60) + " max_size=" + std::to_string(a.size) + " max_shrinks=0";
@@ -863,14 +937,41 @@ static int emit_cases(const eng::Args& a)
         { gg::Input in; in.text = "  \n\t "; add(in); in.text = ""; add(in); }
         for (int k = 0; k < 3 && !keep.empty(); ++k) { gg::Input in = keep[rng.below(uint32_t(keep.size()))]; in.text.insert(in.text.begin() + rng.below(uint32_t(in.text.size() + 1)), "z!@"[rng.below(3)]); add(in); }
         for (int k = 0; k < 2 && !keep.empty(); ++k) { gg::Input in = keep[rng.below(uint32_t(keep.size()))]; if (rng.chance(1, 2)) in.skip_nl = false; else in.skip_ws = false; in.text += rng.chance(1, 2) ? "\n a" : " b"; keep.push_back(in); }
+        // half of the cases: real term kinds. Inputs are re-rendered with the spellings; the reference re-tokenises the new text.
+        bool spelled = ch.chance(1, 2) && !getenv("EMIT_NO_SPELLING");
+        SpellTable spell; if (spelled) spell = make_spelling(ch);
+        auto tname = [&](int t) -> std::string { if (t == g.eof()) return "<eof>"; if (t == g.err()) return "<error_recovery_token>"; return spelled ? spell.sp[size_t(t)].name : g.tname(t); };
+        if (spelled)
+        {
+            std::vector<gg::Input> re;
+            for (auto& in : keep)
+            {
+                gg::Lexed L0 = gg::lex_ref(in.text, in.skip_ws, in.skip_nl);
+                gg::Input n2; n2.skip_ws = true; n2.skip_nl = in.skip_nl;
+                n2.text = render_spelled(spell, L0.toks, rng);
+                if (L0.lex_error) n2.text += "@ ";
+                if (!n2.skip_nl) { for (auto& chx : n2.text) if (chx == '\n' || chx == '\r') chx = ' '; }
+                if (n2.text.size() <= 60) re.push_back(n2);
+            }
+            keep = re;
+        }
         vj::Value ins = vj::Value::array(); size_t nacc = 0, nrej = 0;
         for (auto& in : keep)
         {
-            Expect e = expect_for(pr, in);
+            Expect e;
+            if (spelled) { e.L = lex_spelled(spell, in.text, in.skip_ws, in.skip_nl); e.rr = ref::run_lr(pr.table, e.L.toks, false, e.L.lex_error); }
+            else e = expect_for(pr, in);
             if (e.rr.looped || e.rr.hit_rr) continue;
             vj::Value x = vj::Value::object(); x.set("hex", vj::hex(in.text)); x.set("text", in.text); x.set("ws", in.skip_ws); x.set("nl", in.skip_nl);
             x.set("accept", e.rr.accepted); x.set("value", std::to_string((unsigned long long)e.rr.value));
-            std::string msgs; for (auto& m : expected_msgs(g, e)) { msgs += "[" + std::to_string(m.line) + ":" + std::to_string(m.col) + "] PARSE: " + (m.kind == 0 ? "Syntax error: Unexpected '" + m.s + "'" : "Unexpected character: " + m.s) + "\n"; }
+            std::string msgs;
+            for (int ti : e.rr.error_tokens)
+            {
+                int l, cc2; std::string nm;
+                if (size_t(ti) < e.L.toks.size()) { l = e.L.toks[size_t(ti)].line; cc2 = e.L.toks[size_t(ti)].col; nm = tname(e.L.toks[size_t(ti)].term); } else { l = e.L.eof_line; cc2 = e.L.eof_col; nm = "<eof>"; }
+                msgs += "[" + std::to_string(l) + ":" + std::to_string(cc2) + "] PARSE: Syntax error: Unexpected '" + nm + "'\n";
+            }
+            if (e.rr.lex_error_reached) msgs += "[" + std::to_string(e.L.err_line) + ":" + std::to_string(e.L.err_col) + "] PARSE: Unexpected character: " + std::string(1, char(e.L.err_byte)) + "\n";
             x.set("messages_hex", vj::hex(msgs)); x.set("tokens", (unsigned long long)e.L.toks.size()); x.set("max_depth", (unsigned long long)e.rr.max_depth);
             { vj::Value rs = vj::Value::array(); for (int r : e.rr.reduces) rs.push(g.rules[size_t(r)].slot); x.set("reduces", rs); }
             x.set("kind", e.rr.accepted ? (e.rr.error_tokens.empty() ? "accepted" : "accepted-after-recovery") : (e.rr.lex_error_reached ? "lexical-failure" : "syntax-failure"));
@@ -879,6 +980,13 @@ static int emit_cases(const eng::Args& a)
         if (nacc == 0 || nrej == 0) return;
         vj::Value o = vj::Value::object(); o.set("grammar", ref::to_json(g)); o.set("strategy", c.strategy); o.set("class", cls == 0 ? "conflict-free" : cls == 1 ? "precedence" : "recovery"); o.set("inputs", ins);
         o.set("lr1_states", (unsigned long long)pr.table.states.size());
+        if (spelled)
+        {
+            vj::Value sp = vj::Value::array();
+            for (auto& x : spell.sp) { vj::Value y = vj::Value::object(); y.set("kind", std::string(1, x.kind)); y.set("text", x.text); y.set("name", x.name); sp.push(y); }
+            o.set("spelling", sp);
+            vj::Value od = vj::Value::array(); for (int x : spell.decl_order) od.push(x); o.set("decl_order", od);
+        }
         cases.push(o); per_class[cls]++;
     });
     vj::Value doc = vj::Value::object(); doc.set("cases", cases);
